@@ -10,7 +10,7 @@ from ptstat import AnalysisError, algebra
 from ptstat.symval import SymObj, Phi, SymRaise, Builtin, TextFile
 from ptstat.world import World
 from spec import activation as spec
-from .common import eq, fsite, raises, folder, _s
+from .common import eq, fsite, raises, folder, _s, table_data
 
 EXPLANATION = (
     "The value graph of activation.activity() is built from the current source for a generic isotope "
@@ -72,7 +72,7 @@ def _overflow(ctx, branch_exprs, site):
     rows = [r.split("\t") for r in text.split("\n") if r.strip() != ""]
     data = [r for r in rows if r[0].strip() not in ("", "xx")]
     strip = lambda c_: c_[1:-1] if c_.startswith('"') else c_
-    names = folder(ctx).const("activation", "COLUMN_NAMES")
+    names = table_data(ctx, "activation", "COLUMN_NAMES")
     col = {nm: i for i, nm in enumerate(names)}
     num = lambda r, nm: float(strip(r[col[nm]])) if strip(r[col[nm]]).strip() else 0.0
     P = lambda n: sp.Symbol(n, positive=True)
@@ -369,7 +369,7 @@ PROBE = {1: "101", 2: "26", 4: "56", 6: "6.5", 11: "11.5", 13: "y", 14: "1.45E+0
 
 def _r5(ctx):
     F = folder(ctx)
-    names = F.const("activation", "COLUMN_NAMES")
+    names = table_data(ctx, "activation", "COLUMN_NAMES")
     # which columns are integers, flags and numbers is part of the table's format (the documented attributes of a record):
     # stated here by attribute name, so that the rule does not depend on how the reader organises its conversions
     kinds = {"int": ("_index", "Z", "A"), "bool": ("fast",),
